@@ -150,6 +150,20 @@ def rules(ck, P):
             ir.contains(pp[0]["body"], lambda y: y.get("k") == "call" and (y.get("q") or "").endswith("separated_list1"))
         ck.check(okp, "R-NODE", pp[0]["q"], "a pipeline is the non-empty separated list of parsed nodes, in order", "pipeline is not built from separated_list1 of nodes", ir.loc(pp[0]))
 
+    # ---------------- R-REQ (accessors): a typed accessor rejects a value of the wrong type
+    ba = [x for x in P.bodies if x["q"].endswith("vpl::vpl_node::VPLNode::get_property_bool_req")]
+    if ck.anchor("R-REQ", "VPLNode::get_property_bool_req", ba, 1):
+        b = ba[0]
+        # accepted spellings are string literals of match / matches! patterns; a value outside them must reach an Err (bail!/ensure!/Err(..)),
+        # not silently become `false`
+        lits = sorted({y["e"]["v"] for y in ir.walk_nodes(b["body"]) if y.get("k") == "expr" and y.get("e", {}).get("k") == "lit" and y["e"].get("lk") == "str"} |
+                      {p_["e"]["v"] for m_ in ir.walk_nodes(b["body"]) if m_.get("k") == "match" for a_ in m_["arms"] for p_ in (a_["pat"].get("ps") or [a_["pat"]]) if p_.get("k") == "expr" and p_["e"].get("lk") == "str"})
+        errs = [y for y in ir.walk_nodes(b["body"]) if (y.get("k") == "call" and (y.get("q") or "").endswith("Result::Err::{Ctor#0}")) or (y.get("k") == "ret" and ir.contains(y, lambda z: "Err" in (z.get("q") or "")))
+                or (y.get("k") == "call" and (y.get("q") or "").startswith("anyhow::__private::format_err"))]
+        has_false = any(v in ("false", "0", "no") for v in lits)
+        has_true = any(v in ("true", "1", "yes") for v in lits)
+        ck.check(has_true and has_false and bool(errs), "R-REQ", b["q"] + "|mistyped", "boolean parameters accept spellings of true and of false (%s) and reject everything else with an error" % lits,
+                 "a boolean parameter with a value that is neither a spelling of true nor of false (accepted literals: %s) is not rejected: `fast=maybe` silently means false" % lits, ir.loc(b))
     # ---------------- R-UNKNOWN-OP
     for fn, reg in (("read_operation_from_node", "read_ops"), ("tran_operation_from_node", "tran_ops")):
         fb = [x for x in P.bodies if x["q"].endswith("PipelineFactory::" + fn)]
